@@ -2,7 +2,7 @@
 Each lemma creates named obligations on a fresh state."""
 import re
 import z3
-from pyvc import V, INT, State
+from pyvc import V, INT, State, LIST, BYTES
 from pyvc.spec import ContractSet
 from .ghosts import GH, era_table, COIN, DOC_INITIAL_SUBSIDY_COIN, DOC_HALVING_INTERVAL, DOC_MAX_SUPPLY
 
@@ -804,3 +804,103 @@ def c11_extension(v):
     from .ghosts import FRAME_MAGIC, FRAME_LIMIT
     v.oblige(st, z3.BoolVal(rp.MAGIC == FRAME_MAGIC and MAX_MESSAGE_SIZE == FRAME_LIMIT), "C11:lemma:constants",
              "magic and limit of the specification are those of the code")
+
+
+# ---------------------------------------------------------------------------------------------------- C17 (merkle)
+
+@LM.lemma("C17.lean", props=["C17"])
+def c17_lean(v):
+    """lean/Merkle.lean (Lean 4 core): in the free hash algebra the specification function mroot determines the ordered
+    list of ids.  The file is re-checked by the Lean kernel on every run; a `sorry` or any error fails the obligations."""
+    import os, subprocess, re
+    st = State()
+    home = os.environ.get('VERIF_HOME') or os.path.dirname(os.path.dirname(os.path.abspath(__file__)))
+    src = os.path.join(home, 'lean', 'Merkle.lean')
+    text = open(src).read()
+    try:
+        r = subprocess.run(['lean', src], capture_output=True, text=True, timeout=600, cwd=os.path.dirname(src))
+        out = (r.stdout + r.stderr).strip()
+        ok = r.returncode == 0 and 'sorry' not in out and 'error' not in out and not re.search(r'\bsorry\b|\baxiom\b', text)
+    except Exception as e:      # lean missing / timeout: undecided, never a pass
+        out, ok = "lean could not be run: %s" % e, False
+    for thm in ('pairUp_flat', 'root_flat', 'root_injective', 'duplicate_last_changes'):
+        present = re.search(r'theorem\s+%s\b' % thm, text) is not None
+        v.oblige(st, z3.BoolVal(ok and present), "C17:lemma:lean:" + thm,
+                 "lean/Merkle.lean must be accepted by Lean without sorry/axiom and state theorem %s; lean said: %s" % (thm, out[:300]))
+        ob = v.obligations[-1]
+        ob.kind = 'lean'
+        ob.backend = 'lean4'
+        ob.status = 'discharged' if (ok and present) else 'unknown'     # not accepted = undecided, never a refutation
+        ob.detail = out[:300]
+
+
+def c17_correspondence(v, lengths):
+    """the SMT specification function of the contract (ghosts mroot / mpair) and the Lean definitions (pairUp / root) are
+    the same function: for lists of 1..9 symbolic entries the unfolded ghost axioms give exactly the term built by a
+    transcription of the Lean equations (bounded correspondence of the two texts; the contract itself is for all lengths).
+    Written as a script of small steps (one entry of one level each) so that every step is decided the same way on every run."""
+    from pyvc.types import BYTES_SORT
+    from pyvc.engine import Frame
+    from pyvc.proof import Proof
+    from .ghosts import GH, _merkle_ufs
+    root, pair, sha = _merkle_ufs(v)
+
+    def lean_pair_up(l):
+        if len(l) <= 1:
+            return list(l)
+        return [sha(z3.Concat(l[0], l[1]))] + lean_pair_up(l[2:])
+
+    def lean_root(l):
+        return l[0] if len(l) == 1 else lean_root(lean_pair_up(l))
+
+    def seq_of(items):
+        if not items:
+            return z3.Empty(z3.SeqSort(BYTES_SORT))
+        us = [z3.Unit(x) for x in items]
+        return us[0] if len(us) == 1 else z3.Concat(*us)
+
+    def new_axioms(fn):
+        before = len(v.func_axioms)
+        fn()
+        return list(v.func_axioms[before:])
+
+    for n in lengths:
+        v.func_axioms = []
+        v._ax_seen = set()
+        st = State()
+        st.stack = [Frame({}, None, {}, 'lemma:C17.spec-correspondence')]
+        P = Proof(v, st, "C17:lemma:spec-correspondence:len-%d:" % n)
+        xs = [z3.Const('x%d_%d' % (n, k), BYTES_SORT) for k in range(n)]
+        want = lean_root(xs)
+        cur, items = seq_of(xs), xs
+        P.facts['cur0'] = cur == seq_of(items)          # reflexive
+        level = 0
+        chain = []
+        while len(items) > 1:
+            nxt = lean_pair_up(items)
+            half = len(nxt)
+            ax_root = new_axioms(lambda: GH.ghosts['mroot'](v, st, V(cur, LIST(BYTES))))
+            prev = 'pair%d_0' % level
+            ax0 = new_axioms(lambda: GH.ghosts['mpair'](v, st, V(cur, LIST(BYTES)), 0))
+            P.have(prev, pair(cur, z3.IntVal(0)) == seq_of([]), using=list(v.func_axioms), axioms=False)
+            for k in range(half):
+                axk = new_axioms(lambda: GH.ghosts['mpair'](v, st, V(cur, LIST(BYTES)), k + 1))
+                name = 'pair%d_%d' % (level, k + 1)
+                P.have(name, pair(cur, z3.IntVal(k + 1)) == seq_of(nxt[:k + 1]),
+                       using=[prev, 'cur%d' % level] + list(v.func_axioms), axioms=False)
+                prev = name
+            step = 'root%d' % level
+            P.have(step, root(cur) == root(pair(cur, z3.IntVal(half))), using=['cur%d' % level] + list(v.func_axioms), axioms=False)
+            chain.append(step)
+            cur = pair(cur, z3.IntVal(half))
+            items = nxt
+            level += 1
+            P.facts['cur%d' % level] = P.facts[prev]
+        ax_last = new_axioms(lambda: GH.ghosts['mroot'](v, st, V(cur, LIST(BYTES))))
+        P.have('root%d' % level, root(cur) == items[0], using=['cur%d' % level] + list(v.func_axioms), axioms=False)
+        P.have('equal', root(seq_of(xs)) == want, using=chain + ['root%d' % level], axioms=False)
+
+
+for _lens in ((1, 2, 3, 4, 5), (6, 7), (8,), (9,)):
+    LM.lemma("C17.spec-correspondence.len-%s" % "-".join(map(str, _lens)), props=["C17"])(
+        lambda v, _l=_lens: c17_correspondence(v, _l))
